@@ -85,19 +85,19 @@ type Options struct {
 
 // World is everything outside the code under test for one run.
 type World struct {
-	Disk   *kern.Disk
-	Cwd    string
-	CPUs   int
+	Disk       *kern.Disk
+	Cwd        string
+	CPUs       int
 	GoMaxProcs int // 0 = same as CPUs
-	API    API
-	Args   []string // APIMain: command line after the program name
-	Files  []string // library APIs
-	Opts   Options
-	Stdin  string
-	StdinR io.Reader // when set, used instead of Stdin (faulty readers)
-	Tools  kern.ToolModel
-	Faults []kern.Fault
-	Note   string // free-text description of how the world was generated
+	API        API
+	Args       []string // APIMain: command line after the program name
+	Files      []string // library APIs
+	Opts       Options
+	Stdin      string
+	StdinR     io.Reader // when set, used instead of Stdin (faulty readers)
+	Tools      kern.ToolModel
+	Faults     []kern.Fault
+	Note       string // free-text description of how the world was generated
 }
 
 // ErrRec is a diagnostic, by value.
@@ -273,19 +273,19 @@ func lintOnce(w *World, res *LintResult, shared *sharedLinter) {
 
 // WorldJSON is the materialised form of a world for replay files.
 type WorldJSON struct {
-	Cwd    string            `json:"cwd"`
-	CPUs   int               `json:"cpus"`
-	GoMaxProcs int           `json:"gomaxprocs,omitempty"`
-	API    API               `json:"api"`
-	Args   []string          `json:"args,omitempty"`
-	Files  []string          `json:"files,omitempty"`
-	Opts   Options           `json:"opts"`
-	Stdin  string            `json:"stdin,omitempty"`
-	Faults []kern.Fault      `json:"faults,omitempty"`
-	Dirs   []string          `json:"dirs,omitempty"`
-	Disk   map[string]string `json:"disk"`
-	Links  map[string]string `json:"symlinks,omitempty"`
-	Note   string            `json:"note,omitempty"`
+	Cwd        string            `json:"cwd"`
+	CPUs       int               `json:"cpus"`
+	GoMaxProcs int               `json:"gomaxprocs,omitempty"`
+	API        API               `json:"api"`
+	Args       []string          `json:"args,omitempty"`
+	Files      []string          `json:"files,omitempty"`
+	Opts       Options           `json:"opts"`
+	Stdin      string            `json:"stdin,omitempty"`
+	Faults     []kern.Fault      `json:"faults,omitempty"`
+	Dirs       []string          `json:"dirs,omitempty"`
+	Disk       map[string]string `json:"disk"`
+	Links      map[string]string `json:"symlinks,omitempty"`
+	Note       string            `json:"note,omitempty"`
 }
 
 // Materialise renders the world for a replay file or an evidence sample.
